@@ -36,6 +36,8 @@ pub enum KindSpec {
     Timer(i8),
     /// Generic over a harness-owned eventfd
     Fd { r: bool, w: bool, mode: u8 },
+    /// synchronous channel with the given bound; the harness only uses try_send
+    SyncChan(u8),
     /// futures executor; causes are ready futures scheduled on it
     Exec,
     /// `Async` adapter over one end of a socketpair (no tasks: registration only)
@@ -49,6 +51,7 @@ impl KindSpec {
         match self {
             KindSpec::Ping => "Ping",
             KindSpec::Chan => "Chan",
+            KindSpec::SyncChan(_) => "SyncChan",
             KindSpec::Timer(_) => "Timer",
             KindSpec::Fd { mode: 0, .. } => "FdLevel",
             KindSpec::Fd { mode: 1, .. } => "FdEdge",
@@ -295,6 +298,7 @@ pub struct Rt {
     pub track: Rc<Track>,
     pub pings: Vec<Ping>,
     pub senders: Vec<Sender<u8>>,
+    pub sync_senders: Vec<calloop::channel::SyncSender<u8>>,
     pub efd: Option<Rc<OwnedFd>>,
     pub timer: Option<Dispatcher<'static, Tracked<Timer>, Ctx>>,
     pub fdd: Option<Dispatcher<'static, Tracked<Generic<FdRef>>, Ctx>>,
@@ -465,6 +469,7 @@ impl Ctx {
             track: track.clone(),
             pings: vec![],
             senders: vec![],
+            sync_senders: vec![],
             efd: None,
             timer: None,
             fdd: None,
@@ -494,6 +499,20 @@ impl Ctx {
             KindSpec::Chan => {
                 let (tx, rx): (Sender<u8>, Channel<u8>) = channel::channel();
                 rt.senders.push(tx);
+                ma.senders = 1;
+                self.h
+                    .insert_source(Tracked::new(rx, track.clone()), move |ev, _, ctx: &mut Ctx| {
+                        let _g = &guard;
+                        match ev {
+                            channel::Event::Msg(v) => ctx.on_cb(id, Payload::Msg(v)),
+                            channel::Event::Closed => ctx.on_cb(id, Payload::Closed),
+                        };
+                    })
+                    .map_err(|e| format!("{e:?}"))
+            }
+            KindSpec::SyncChan(bound) => {
+                let (tx, rx) = channel::sync_channel::<u8>(bound as usize);
+                rt.sync_senders.push(tx);
                 ma.senders = 1;
                 self.h
                     .insert_source(Tracked::new(rx, track.clone()), move |ev, _, ctx: &mut Ctx| {
@@ -748,6 +767,11 @@ impl Ctx {
                         v.push(Op::Cause(i))
                     }
                 }
+                KindSpec::SyncChan(_) => {
+                    if a.senders > 0 {
+                        v.push(Op::Cause(i))
+                    }
+                }
                 KindSpec::Fd { .. } => {
                     if a.fdc == 0 {
                         v.push(Op::Cause(i))
@@ -780,7 +804,7 @@ impl Ctx {
                         v.push(Op::Cause2(i))
                     }
                 }
-                KindSpec::Chan => {
+                KindSpec::Chan | KindSpec::SyncChan(_) => {
                     if a.senders > 0 {
                         v.push(Op::Cause2(i))
                     }
@@ -1481,6 +1505,25 @@ impl Ctx {
                                 format!("send on channel {j} failed while the channel is in the loop"));
                         }
                     }
+                    KindSpec::SyncChan(_) => {
+                        let v = self.m[j].next_msg;
+                        self.m[j].next_msg = v.wrapping_add(1);
+                        match self.rt[j].sync_senders[0].try_send(v) {
+                            Ok(()) => {
+                                self.m[j].q.push_back(v);
+                                self.m[j].sig_at = Some(self.rt[j].track.pe_reg_seq.get());
+                            }
+                            Err(std::sync::mpsc::TrySendError::Full(_)) => {
+                                // nothing queued, but the loop is signalled all the same
+                                self.m[j].sig_at = Some(self.rt[j].track.pe_reg_seq.get());
+                            }
+                            Err(_) => {
+                                if self.m[j].alive {
+                                    self.violate(&["C04"], "send-failed", &[], format!("try_send on channel {j} reported Disconnected while the channel is in the loop"));
+                                }
+                            }
+                        }
+                    }
                     KindSpec::Fd { r, .. } => {
                         let efd = self.rt[j].efd.clone().unwrap();
                         epoll::eventfd_write(efd.as_raw_fd(), 1);
@@ -1519,6 +1562,11 @@ impl Ctx {
                     }
                     KindSpec::Chan => {
                         self.rt[j].senders.pop();
+                        self.m[j].senders -= 1;
+                        self.m[j].sig_at = Some(self.rt[j].track.pe_reg_seq.get());
+                    }
+                    KindSpec::SyncChan(_) => {
+                        self.rt[j].sync_senders.pop();
                         self.m[j].senders -= 1;
                         self.m[j].sig_at = Some(self.rt[j].track.pe_reg_seq.get());
                     }
@@ -1801,7 +1849,7 @@ impl Ctx {
             let tr = &self.rt[i].track;
             match a.spec {
                 KindSpec::Ping => a.ping || a.close_at.is_some(),
-                KindSpec::Chan | KindSpec::Exec | KindSpec::ExecIo => a.sig_at.map(|at| tr.pe_reg_seq.get() <= at).unwrap_or(false),
+                KindSpec::Chan | KindSpec::SyncChan(_) | KindSpec::Exec | KindSpec::ExecIo => a.sig_at.map(|at| tr.pe_reg_seq.get() <= at).unwrap_or(false),
                 KindSpec::Timer(_) | KindSpec::Async => false,
                 KindSpec::Fd { r, w, mode } => {
                     let ready = (r && a.fdc > 0) || (w && a.fdc < 2);
@@ -1837,7 +1885,7 @@ impl Ctx {
             }
             a.owed = match a.spec {
                 KindSpec::Ping => a.ping,
-                KindSpec::Chan => !a.q.is_empty() || (a.senders == 0 && !a.closed_delivered),
+                KindSpec::Chan | KindSpec::SyncChan(_) => !a.q.is_empty() || (a.senders == 0 && !a.closed_delivered),
                 KindSpec::Exec => a.runq.iter().any(|t| a.tasks.iter().any(|x| x.0 == *t && x.2)),
                 KindSpec::Async | KindSpec::ExecIo => false,
                 KindSpec::Timer(_) => false, // decided after the wait (needs the poll time)
@@ -1939,7 +1987,7 @@ impl Ctx {
                 let props: Vec<&str> = match a.spec {
                     KindSpec::Timer(_) => vec!["C02", "C05"],
                     KindSpec::Ping => vec!["C02", "C03"],
-                    KindSpec::Chan => vec!["C02", "C04"],
+                    KindSpec::Chan | KindSpec::SyncChan(_) => vec!["C02", "C04"],
                     KindSpec::Exec => vec!["C02", "C10"],
                     _ => vec!["C02"],
                 };
@@ -2077,7 +2125,7 @@ impl Ctx {
             }
             let key = calloop::verif::registration_key(self.rt[i].token.as_ref().unwrap()) as u64;
             match a.spec {
-                KindSpec::Ping | KindSpec::Chan | KindSpec::Exec | KindSpec::ExecIo => {
+                KindSpec::Ping | KindSpec::Chan | KindSpec::SyncChan(_) | KindSpec::Exec | KindSpec::ExecIo => {
                     expected.push((key, self.masks.expected(Interest::READ, Mode::Level), None, i))
                 }
                 KindSpec::Async => {}
@@ -2153,7 +2201,7 @@ impl Ctx {
             r.track.registered.get().hash(&mut h);
             // harness-side state that decides which operations are possible later
             (r.timer.is_some(), r.fdd.is_some(), r.adapter.is_some(), r.released.is_some(), r.released_efd.is_some()).hash(&mut h);
-            (r.pings.len(), r.senders.len(), r.gates.len()).hash(&mut h);
+            (r.pings.len(), r.senders.len(), r.sync_senders.len(), r.gates.len()).hash(&mut h);
             r.efd.as_ref().map(|e| e.as_raw_fd() - self.epfd).hash(&mut h);
             r.async_fd.map(|f| f - self.epfd).hash(&mut h);
         }
@@ -2335,6 +2383,7 @@ pub fn run_history(cfg: &Rc<Cfg>, verbose: bool) -> (Outcome, Option<Vec<String>
             r.fdd.take();
             r.pings.clear();
             r.senders.clear();
+            r.sync_senders.clear();
             r.sched.take();
             r.released.take();
         }
